@@ -143,6 +143,8 @@ func ImportDriver(spec string) [][]Action {
 		return drvCgo(r, count)
 	case "filecomments":
 		return drvFileComments(r, count)
+	case "scale":
+		return drvScale(r, count)
 	}
 	fatal("unknown import driver " + name)
 	return nil
@@ -676,6 +678,156 @@ func drvFileComments(r *rand.Rand, n int) [][]Action {
 		}
 		h = append(h, Action{A: "Add", Tree: stm(kwn("var"), idn("v"), opn("="), lit("1"))}, Action{A: "Render"})
 		out = append(out, h)
+	}
+	return out
+}
+
+// drvScale: Files that are LARGE in one dimension - competitors for one name (numeric suffixes of three and four digits),
+// distinct imports, hints, renders of the same File, the length and depth of a path - as the generators of big projects
+// produce them.  (No model comparison for these: the monitors read the observations.)
+func drvScale(r *rand.Rand, n int) [][]Action {
+	out := [][]Action{}
+	light := func(h []Action) []Action { h[0].Light = true; return h }
+	competitors := []int{130}
+	if n > 5000 {
+		competitors = append(competitors, 1100)
+	}
+	for _, k := range competitors {
+		for _, pfx := range []string{"", "pkg"} {
+			st := &symtab{}
+			h := []Action{newAct("", pfx)}
+			for j := 0; j < k; j++ {
+				p := fmt.Sprintf("m%d/d", j)
+				if j%7 == 3 {
+					h = append(h, Action{A: "ImportName", P: p, N: "d"})
+				}
+				h = append(h, Action{A: "Add", Tree: varQ(p, st.sym(p))})
+				if j == k/2 {
+					h = append(h, Action{A: "Render"}) // half way: the names handed out so far stay
+				}
+			}
+			out = append(out, light(append(h, Action{A: "Render"})))
+		}
+	}
+	{
+		// several hundred distinct imports, a third of them hinted through one ImportNames table with many unused entries;
+		// what small Files do at once happens here only after the File has grown: a path that was made anonymous is
+		// referenced, and the next new path wants the same name; packages that share a base name arrive late; two
+		// dot-imports are first referenced late, one of them for a path that the big table names
+		st := &symtab{}
+		h := []Action{newAct("", "")}
+		table := map[string]string{}
+		for j := 0; j < 900; j++ {
+			table[fmt.Sprintf("big%d/p%d", j, j)] = fmt.Sprintf("n%d", j)
+		}
+		h = append(h, Action{A: "ImportNames", M: table})
+		h = append(h, Action{A: "Anon", P: "late/d"})
+		h = append(h, Action{A: "ImportAlias", P: "big7/p7", N: "."}, Action{A: "ImportAlias", P: "dot2/q", N: "."})
+		for j := 0; j < 320; j++ {
+			p := fmt.Sprintf("big%d/p%d", j*3, j*3)
+			if j%3 == 1 {
+				p = fmt.Sprintf("other%d/q%d", j, j)
+			}
+			h = append(h, Action{A: "Add", Tree: varQ(p, st.sym(p))})
+			if j == 200 {
+				h = append(h, Action{A: "Render"})
+			}
+		}
+		for _, p := range []string{"late/d", "next/d", "t1/types", "t2/types", "t3/types", "t4/types", "big7/p7", "dot2/q", "third/d"} {
+			h = append(h, Action{A: "Add", Tree: varQ(p, st.sym(p))})
+		}
+		out = append(out, light(append(h, Action{A: "Render"})))
+	}
+	{
+		// a Dict of many pairs: some omitted (null value) with a qualified key that is referenced nowhere else, the values
+		// of the others qualified with paths that compete for one name
+		st := &symtab{}
+		h := []Action{newAct("", "")}
+		d := &Node{K: "dict"}
+		for j := 0; j < 48; j++ {
+			key := stm(lit(strconv.Quote(fmt.Sprintf("k%02d", j))))
+			val := stm(lit(strconv.Itoa(j)))
+			switch j % 8 {
+			case 3:
+				p := fmt.Sprintf("only/in/omitted%d", j)
+				key = qualStmt(p, st.sym(p))
+				val = nullStmt()
+			case 5:
+				p := fmt.Sprintf("gen/v%d/model", j)
+				val = qualStmt(p, st.sym(p))
+			}
+			d.Items = append(d.Items, &Node{K: "pair", Items: []*Node{key, val}})
+			d.Order = append(d.Order, j+1)
+		}
+		h = append(h, Action{A: "Add", Tree: stm(kwn("var"), idn("_"), opn("="), idn("T"), grp("values", d))})
+		out = append(out, light(append(h, Action{A: "Render"})))
+	}
+	{
+		// a value nested many levels deep is rendered with the File (it formats), then a small one, then the File
+		st := &symtab{}
+		h := []Action{newAct("", "")}
+		deep := stm(qualStmt("deep/d", st.sym("deep/d")))
+		for j := 0; j < 700; j++ {
+			deep = stm(grp("parens", deep))
+		}
+		h = append(h, Action{A: "Frag", Tree: stm(idn("x"), opn("="), deep)})
+		h = append(h, Action{A: "Frag", Tree: fragQ("small/d", st.sym("small/d"))})
+		h = append(h, Action{A: "Frag", Tree: fragQ("small/d", st.sym("small/d"))})
+		h = append(h, Action{A: "Add", Tree: varQ("small/d", st.sym("small/d"))})
+		out = append(out, light(append(h, Action{A: "Render"})))
+	}
+	for _, pfx := range []string{"", "gen"} {
+		// standard-library packages in a File that has grown: after a dozen packages of the same base name, and in an
+		// import block of several dozen entries in which standard names collide
+		st := &symtab{}
+		h := []Action{newAct("", pfx)}
+		for j := 0; j < 14; j++ {
+			p := fmt.Sprintf("vendor%d/rand", j)
+			h = append(h, Action{A: "Add", Tree: varQ(p, st.sym(p))})
+		}
+		for _, p := range []string{"math/rand", "crypto/rand", "text/template", "html/template", "errors", "x/errors", "go/scanner", "text/scanner",
+			"runtime/pprof", "net/http/pprof", "fmt", "os", "io", "strings", "bytes", "sort", "time", "sync", "context", "net/http", "encoding/json", "path", "path/filepath", "math/rand/v2"} {
+			h = append(h, Action{A: "Add", Tree: varQ(p, st.sym(p))})
+		}
+		out = append(out, light(append(h, Action{A: "Render"}, Action{A: "Render"})))
+	}
+	{
+		// cgo in a large File: dozens of imports and a reference to "C", rendered, THEN the preamble arrives (one of its
+		// lines is several thousand bytes long: a generated table), rendered again
+		st := &symtab{}
+		h := []Action{newAct("", "")}
+		for j := 0; j < 90; j++ {
+			p := fmt.Sprintf("cg%d/p%d", j, j)
+			h = append(h, Action{A: "Add", Tree: varQ(p, st.sym(p))})
+		}
+		h = append(h, Action{A: "Add", Tree: varQ("C", st.sym("C"))}, Action{A: "Render"})
+		h = append(h, Action{A: "Preamble", N: "#include <stdint.h>\nstatic const uint8_t table[] = {" + strings.Repeat("0x2a, ", 1300) + "0};\nint lookup(int i);"})
+		h = append(h, Action{A: "Preamble", N: "#cgo LDFLAGS: -lm"})
+		out = append(out, light(append(h, Action{A: "Render"})))
+	}
+	{
+		// one File rendered many times, a reference added now and then
+		st := &symtab{}
+		h := []Action{newAct("", "pkg")}
+		for j := 0; j < 70; j++ {
+			if j%9 == 0 {
+				p := fmt.Sprintf("rep%d/d", j)
+				h = append(h, Action{A: "Add", Tree: varQ(p, st.sym(p))})
+			}
+			h = append(h, Action{A: "Render"})
+		}
+		out = append(out, light(h))
+	}
+	{
+		// very long and very deep paths, long last elements
+		st := &symtab{}
+		h := []Action{newAct("", "")}
+		long := strings.Repeat("segment/", 300) + "leaf"
+		wide := "w/" + strings.Repeat("x", 3000)
+		for _, p := range []string{long, long + "2", wide, wide + "y", strings.Repeat("a/", 1200) + "d", "z/" + strings.Repeat("é", 700)} {
+			h = append(h, Action{A: "Add", Tree: varQ(p, st.sym(p))})
+		}
+		out = append(out, light(append(h, Action{A: "Render"})))
 	}
 	return out
 }
